@@ -5,8 +5,11 @@ write_json/read_json, write_db/read_db (dvc_data.index.serialize), DataIndex.ope
 reopen (SQLite-backed DataIndexTrie), Tree.as_list(with_meta=True) -> JSON text -> Tree.from_list(.., hash_name).
 
 Every case is judged twice: by the *oracle* (the round-trip property itself, on the real objects only) and by the
-*correspondence* (the dictionaries / records the real code produced vs the Gallina model Model/Serialize.v,
-evaluated with vm_compute inside coqc).  Ill-formed inputs (key parts with "/" or empty, colliding joined keys,
+*correspondence* (the dictionaries / records the real code produced vs the Gallina model, evaluated with vm_compute
+inside coqc).  The model's to_dict / from_dict ARE the translator's output (units "types" -> Gen/PyTypes.v and
+"serdict" -> Gen/SerDict.v, regenerated from the current source on every run), so the same run is the translation
+validation of those six functions; containers, the SQLite-backed trie and the listing are hand-modelled in
+Model/Serialize.v.  Ill-formed inputs (key parts with "/" or empty, colliding joined keys,
 dicts that make from_dict raise, listings without usable hash) form a separate malformed stream on which only
 model == implementation is required.
 """
@@ -32,6 +35,9 @@ RULE = (
     "through JSON file, diskcache db and the SQLite-backed index (root key, overwrites, uncommitted writes); "
     "listings with metadata for md5 and md5-dos2unix. Malformed stream: parts containing '/', empty parts, the "
     "empty key in joined forms, colliding joined keys, listings with absent/foreign hashes or no hash name. "
+    "corpus/C20/regression.json (the documented corners: all-default meta, zero sizes next to empty strings, "
+    "nameless hash, obj_name, root key + overwrite after reopen, md5 slot of a listing, '/' in a part) runs first. "
+    "Oracle failures on containers are shrunk by dropping entries/operations. "
     "A case is non-trivial when at least one optional field is emitted and at least one is suppressed "
     "(dict families) or the container holds >= 2 entries with metadata and hash (container families)."
 )
@@ -43,6 +49,11 @@ ASSUMPTIONS = [
     "text is a sequence of Unicode scalar values (no lone surrogates); mtime is an opaque token (never serialised)",
     "from_dict inputs are typed: a dictionary holding a value of another Python type yields an ill-typed object "
     "in the implementation and is outside the model (model answer: error kind 100, never generated)",
+    "listing with metadata: stated for the md5 family (md5, md5-dos2unix); the md5 slot of the metadata read back "
+    "holds the entry's hash (the flat listing stores the hash there) - an observation recorded in the input "
+    "distribution, not an alarm; for a hash name without a Meta attribute from_list raises (malformed stream)",
+    "SQLite-backed form: closing with uncommitted rows is unspecified (sqlite3 rollback vs sqltrie's implicit "
+    "commits) - generated histories reopen only directly after a commit; the theorem carries the same hypothesis",
 ]
 
 SHARD_BYTES = 45_000
@@ -656,21 +667,29 @@ def run_listing(ctx, case):
     inp = "InListing %s %s" % (cotext(hn), clist(
         [f"({ckey(k)}, ({cmeta(byk[k][0])}, {chi(byk[k][1])}))" for k, _, _ in order]))
     problems = []
+    # the quantifier of the listing part (Properties/C20.v, tree_wf): md5 family, well-formed keys, metadata
+    # present, hash of that name with a value.  Inside it an exception is a violation.
+    wf = (hn in ("md5", "md5-dos2unix") and all(key_is_wf(k) for k, _, _ in order)
+          and all(h is not None and h.name == hn and h.value for _, _, h in order)
+          and all(m is not None for _, m, _ in order))
     try:
         lst = t.as_list(with_meta=True)
         e1 = ok(vL([vjv(d) for d in lst]))
     except Exception as exc:  # noqa: BLE001
-        return inp, vL([err(exc), err(exc)]), problems, False, False
+        if wf:
+            problems.append((f"C20:listing:unexpected-exception:as_list:{type(exc).__name__}",
+                             f"as_list(with_meta=True) raised {exc!r} on a well-formed tree"))
+        return inp, vL([err(exc), err(exc)]), problems, wf, False
     raw = json.loads(t.as_bytes(with_meta=True).decode("utf-8"))
     try:
         t2 = Tree.from_list(raw, hash_name=hn)
         after = list(t2)
         e2 = ok(vL([vL([vkey(k), vo(m, vmeta), vo(h, vhi)]) for k, m, h in after]))
     except Exception as exc:  # noqa: BLE001
-        return inp, vL([e1, err(exc)]), problems, False, False
-    wf = (hn in ("md5", "md5-dos2unix") and all(key_is_wf(k) for k, _, _ in order)
-          and all(h is not None and h.name == hn and h.value for _, _, h in order)
-          and all(m is not None for _, m, _ in order))
+        if wf:
+            problems.append((f"C20:listing:unexpected-exception:from_list:{type(exc).__name__}",
+                             f"from_list(.., hash_name={hn!r}) raised {exc!r} on the listing of a well-formed tree"))
+        return inp, vL([e1, err(exc)]), problems, wf, False
     if wf:
         amap = {k: (m, h) for k, m, h in after}
         if sorted(amap, key=keysort) != sorted((k for k, _, _ in order), key=keysort):
@@ -688,7 +707,8 @@ def run_listing(ctx, case):
                 want["md5"] = h.value
                 if m2 is None or m2.to_dict() != want:
                     problems.append(("C20:listing:meta-differs",
-                                     f"{k!r}: {m.to_dict()!r} came back as {None if m2 is None else m2.to_dict()!r}"))
+                                     f"{k!r}: expected {want!r} (serialised metadata with the hash in its md5 slot), "
+                                     f"came back as {None if m2 is None else m2.to_dict()!r}"))
                 for sig, what in meta_field_problems(_without_md5(m), _without_md5(m2), "listing"):
                     problems.append((sig, f"{k!r}: {what}"))
             # the listing is a fixed point of the round trip
@@ -818,6 +838,46 @@ def run_one(ctx, case):
     raise ValueError(f)
 
 
+def _parts(case):
+    """the list a container case can be shrunk over"""
+    f = case["family"]
+    if f in ("json", "db", "listing"):
+        return "entries"
+    if f == "sqlite":
+        return "ops"
+    return None
+
+
+def shrink(ctx, case, sig, budget=60):
+    """drop entries / operations one at a time while the same oracle signature persists"""
+    field = _parts(case)
+    if field is None:
+        return case, None
+    cur, what = case, None
+    progress = True
+    while progress and budget > 0:
+        progress = False
+        for i in range(len(cur[field]) - 1, -1, -1):
+            if budget <= 0:
+                break
+            if cur["family"] == "sqlite" and i == len(cur[field]) - 1:
+                continue  # keep the final commit
+            cand = dict(cur)
+            cand[field] = cur[field][:i] + cur[field][i + 1:]
+            if not cand[field]:
+                continue
+            budget -= 1
+            try:
+                probs = run_one(ctx, cand)[2]
+            except Exception as exc:  # noqa: BLE001
+                probs = [(f"C20:{cur['family']}:unexpected-exception:{type(exc).__name__}", repr(exc))]
+            hit = [w for sg, w in probs if sg == sig]
+            if hit:
+                cur, what, progress = cand, hit[0], True
+                break
+    return cur, what
+
+
 GROUPS = {
     "dicts": ("meta", "meta_dict", "hash", "hash_dict", "entry", "entry_dict", "key"),
     "json": ("json",), "db": ("db",), "sqlite": ("sqlite",), "listing": ("listing",),
@@ -849,14 +909,19 @@ def run(ctx):
                 inp, exp, problems, nontrivial = run_one(ctx, case)
             except Exception as exc:  # noqa: BLE001
                 # the real code raised where no exception is part of the behaviour
-                ctx.oracle_fail(f"C20:{f}:unexpected-exception:{type(exc).__name__}",
-                                f"{f}: the implementation raised {exc!r}", case)
+                sig = f"C20:{f}:unexpected-exception:{type(exc).__name__}"
+                if not any(v.signature == sig for v in ctx.violations):
+                    small, what2 = shrink(ctx, case, sig)
+                    ctx.oracle_fail(sig, f"{f}: the implementation raised {what2 or repr(exc)}", small)
                 continue
             ctx.case(case, nontrivial)
             ctx.count("family:" + f)
             judged += 1
             for sig, what in problems:
-                ctx.oracle_fail(sig, what, case)
+                if any(v.signature == sig for v in ctx.violations):
+                    continue
+                small, what2 = shrink(ctx, case, sig)
+                ctx.oracle_fail(sig, what2 or what, small)
             items_by_group[fam2group[f]].append((case, inp, exp))
     ctx.obligation("oracle:round-trips", not any(v.kind == "oracle" for v in ctx.violations),
                    f"{judged} real round trips judged (field-wise and projection-wise) on the implementation's objects")
